@@ -46,6 +46,12 @@ func childMessages(p reflect.Value) (kids []reflect.Value, names []string) {
 		if c := s.FieldByName("Command").Uint(); c == 2 {
 			skip["Buckets"] = true
 		}
+	case "p.Ethernet":
+		// the 802.1Q tag is a struct field, present in every value; it is on the wire only when the frame is tagged
+		// (VLAN id 0 = untagged for this library: known finding D37 covers the priority-tagged frame)
+		if vl := s.FieldByName("VLANID"); vl.IsValid() && vl.FieldByName("VID").Uint() == 0 {
+			skip["VLANID"] = true
+		}
 	}
 	add := func(v reflect.Value, name string) {
 		switch v.Kind() {
@@ -68,7 +74,7 @@ func childMessages(p reflect.Value) (kids []reflect.Value, names []string) {
 		default:
 			return
 		}
-		if v.Elem().Type() == bufferType || v.Elem().Type() == bytesBufferType {
+		if v.Elem().Type() == bytesBufferType {
 			return
 		}
 		// a *MatchField held by a register action or a learn spec is a field REFERENCE (only its 4-byte header word is
